@@ -24,6 +24,7 @@ DEF_FRAGMENTS = [
     '\\newcommand{\\zzd}{\\zza{q}}', '\\newcommand{\\zze}[2]{#2#1}', '\\newtheorem{zzthm}{Zzthm}',
     '\\newcommand*{\\zzf}[3][]{#3#1}', '\\def\\zzg{G}', '\\renewcommand{\\textbf}[1]{#1}',
     '\\newcommand{\\zzh}[1]{\\footnote{#1}}', '\\def\\zzi[#1]{#1}',
+    '\\footnote{a \\LTinput{zz-lang.tex}}', '\\LTinput{zz-lang.tex}', '\\[a &\\text{b \\LTinput{zz-lang.tex}} & c\\]', '\\caption{\\LTinput{zz-lang.tex}}',
     '\\newcommand{\\zzs}{   \n  }', '\\newcommand{\\zzs}{a \n \n  b}', '\\newcommand{\\zzv}{\\verb|abcdefgh|}', '\\newcommand{\\zzw}{\\begin{verbatim}abc def\\end{verbatim}}',
     '\\newacronym{a}{b}{\u00df}', '\\newglossaryentry{g}{name=n,description={\ufb01x}}', '\\newacronym{a}{b}{\u0390}', '\\newglossaryentry{g}{description={\ufb03}}', '\\newacronym{a}{b}{\u0390 x}',
 ]
